@@ -6,6 +6,9 @@ CONSTANTS
   FixSend = TRUE
   FixReader = TRUE
   Banned = {"r2"}
+  Asking = {}
+  AskAnswersInHand = TRUE
+  BufCap = 3
   FixFlushOnStop = FALSE
   MaxResets = 1
   WithStop = TRUE
